@@ -374,7 +374,15 @@ func c17One(ctx *core.Ctx, i int, tm gen.Tagged) {
 	firstDot := ""
 	// (1) construction, DOT, reversal, cycles under schedules (no path queries: they would dominate the choice points)
 	var o *c17Obs
-	for _, b := range []map[string]int{{"any": 1, "lines": 0}, {"any": 0, "lines": -1}} {
+	budgets := []map[string]int{{"any": 1, "lines": 0}, {"any": 0, "lines": -1}}
+	pairBudget := map[string]int{"any": 1, "lines": 1}
+	if len(rg.Order) > 30 {
+		// a large graph (the size sweeps): the default schedule only - its subject is size, not order
+		budgets = []map[string]int{{"any": 0, "lines": 0}}
+		pairBudget = map[string]int{"any": 0, "lines": 0}
+		ctx.Flag("c17:large-graph")
+	}
+	for _, b := range budgets {
 		st := rt.Explore(rt.Config{Class: c17Class, Budget: b, MaxExec: 12000, Stop: ctx.Expired},
 			func() { o = c17Body(proto.Clone(pm).(*openfgav1.AuthorizationModel), nil) },
 			func(pts []rt.Point) bool {
@@ -442,7 +450,7 @@ func c17One(ctx *core.Ctx, i int, tm gen.Tagged) {
 		for j := 0; j < k; j++ {
 			pairs = append(pairs, allPairs[(i*7+j*13)%len(allPairs)])
 		}
-		st := rt.Explore(rt.Config{Class: c17Class, Budget: map[string]int{"any": 1, "lines": 1}, MaxExec: 12000, Stop: ctx.Expired},
+		st := rt.Explore(rt.Config{Class: c17Class, Budget: pairBudget, MaxExec: 12000, Stop: ctx.Expired},
 			func() { o = c17Body(proto.Clone(pm).(*openfgav1.AuthorizationModel), pairs) },
 			func(pts []rt.Point) bool {
 				ctx.Trans(1)
@@ -480,6 +488,10 @@ func c17Models(thorough bool) []gen.Tagged {
 	mstep := 16
 	if thorough {
 		mstep = 2
+	}
+	out = append(out, gen.SweepModelsGraph([]int{13})...)
+	if thorough {
+		out = append(out, gen.SweepModelsGraph([]int{33})...)
 	}
 	for _, fam := range [][]gen.Tagged{c10ManyConds(), gen.TuplesetListModels(), c11Many()} {
 		for i := 0; i < len(fam); i += mstep {
